@@ -255,3 +255,20 @@ func mainStubs(pegPkg, peg string) map[string]stubFn {
 		},
 	}
 }
+
+// CompileStubs replace the text-emission back end of (*tree.Tree).Compile (text/template,
+// go/parser, go/printer): the emitted text is not the subject of the analyses' properties
+// (C15, C09). They succeed and write nothing.
+func CompileStubs() map[string]stubFn {
+	dummy := func(e *Engine) Value { return e.newCell(&Native{Kind: "opaque"}) }
+	return map[string]stubFn{
+		"text/template.New":                 func(e *Engine, _ *ssa.Function, a []Value) Value { return dummy(e) },
+		"(*text/template.Template).Funcs":   func(e *Engine, _ *ssa.Function, a []Value) Value { return a[0] },
+		"(*text/template.Template).Parse":   func(e *Engine, _ *ssa.Function, a []Value) Value { return Tuple{a[0], (*Iface)(nil)} },
+		"(*text/template.Template).Execute": func(e *Engine, _ *ssa.Function, a []Value) Value { return (*Iface)(nil) },
+		"go/token.NewFileSet":               func(e *Engine, _ *ssa.Function, a []Value) Value { return dummy(e) },
+		"go/parser.ParseFile":               func(e *Engine, _ *ssa.Function, a []Value) Value { return Tuple{dummy(e), (*Iface)(nil)} },
+		"(*go/printer.Config).Fprint":       func(e *Engine, _ *ssa.Function, a []Value) Value { return (*Iface)(nil) },
+		"(*bytes.Buffer).WriteTo":           func(e *Engine, _ *ssa.Function, a []Value) Value { return Tuple{int64(0), (*Iface)(nil)} },
+	}
+}
